@@ -97,7 +97,9 @@ def proj_get(v, p):
     if kind == 'index':
         st, off = seq_store(v); return st[off + arg]
     if kind == 'deref': return v.get() if isinstance(v, Ref) else v     # constants (b"..", promoted) are kept unwrapped
-    if kind == 'field': return v.f[arg]
+    if kind == 'field':
+        if isinstance(v, Str) and arg == 0: return v       # (cow as Borrowed).0
+        return v.f[arg]
     if kind == 'downcast': return v
     raise Exception(p)
 def proj_set(v, path, nv):
@@ -277,6 +279,7 @@ def subst_generics(gs):
     return [(prev[0] if re.fullmatch(r'[A-Z]', g) and prev else g) for g in gs]
 
 def disc_value(e, ctx):
+    if isinstance(e, Str): return 0 if getattr(e, 'cow', 'Borrowed') == 'Borrowed' else 1      # Cow<str>
     if hasattr(e, 'idx'): return e.idx
     if e.variant in DISC: return DISC[e.variant]
     return 1 if option_is_some(e, ctx) else 0
@@ -298,6 +301,19 @@ def eval_rvalue(fr, rv, ctx):
         return ('disc', v)
     m = re.fullmatch(r'(.*) as .* \(PointerCoercion.*\)', rv)
     if m: return eval_operand(fr, m.group(1), ctx)
+    m = re.fullmatch(r'(.*) as f(32|64) \(FloatToFloat\)', rv)
+    if m:
+        return fpToFP(RNE(), eval_operand(fr, m.group(1), ctx), Float32() if m.group(2) == '32' else Float64())
+    m = re.fullmatch(r'(.*) as f(32|64) \(IntToFloat\)', rv)
+    if m:
+        v = eval_operand(fr, m.group(1), ctx)
+        src = re.sub(r'^(no_retag )?(move|copy) ', '', m.group(1).strip())
+        ml = re.search(r'_(\d+)', src)
+        ty = getattr(CURRENT_FN[-1], 'types', {}).get(int(ml.group(1)), '') if ml else ''
+        signed = bool(re.fullmatch(r'&*i(8|16|32|64|128|size)', ty.strip()))
+        sort = Float32() if m.group(2) == '32' else Float64()
+        if isinstance(v, int): return FPVal(float(v), sort)
+        return fpSignedToFP(RNE(), v, sort) if signed else fpUnsignedToFP(RNE(), v, sort)
     m = re.fullmatch(r'(.*) as (\*const|\*mut) .* \((Transmute|PtrToPtr)\)', rv)
     if m:      # pointer-to-pointer casts keep the reference (Box internals: NonNull -> *const)
         v = eval_operand(fr, m.group(1), ctx)
@@ -326,7 +342,12 @@ def eval_rvalue(fr, rv, ctx):
     m = re.fullmatch(r'(ConvertValueError|NarrowConvertSnafu::<String>) \{(.*)\}', rv)
     if m: return ('opaque', m.group(1))
     m = re.fullmatch(r"Cow::<.*>::(Owned|Borrowed)\((.*)\)", rv)
-    if m: return eval_operand(fr, m.group(2), ctx)
+    if m:
+        v = eval_operand(fr, m.group(2), ctx)
+        inner = _d(v)
+        if isinstance(inner, Str):      # a Cow<str> is its text; which variant it is stays visible to `match` through .cow
+            v = Str(list(inner.b)); v.cow = m.group(1)
+        return v
     m = re.fullmatch(r'(Mul|Div|Rem|BitOr|BitXor|Shl|Shr|MulUnchecked|AddUnchecked|SubUnchecked|ShlUnchecked|ShrUnchecked)\((.*)\)', rv)
     if m:
         ops = split_top(m.group(2))
@@ -643,6 +664,13 @@ def call(fr, callee, args, ctx):
         while b and ctx.branch(is_ws(b[0])): b.pop(0)
         while b and ctx.branch(is_ws(b[-1])): b.pop()
         return Str(b)
+    if c.endswith('impl str>::trim_start') or c.endswith('impl str>::trim_end'):
+        b = list(_d(args[0]).b)
+        if c.endswith('trim_start'):
+            while b and ctx.branch(is_ws(b[0])): b.pop(0)
+        else:
+            while b and ctx.branch(is_ws(b[-1])): b.pop()
+        return Str(b)
     if 'impl str>::split::<char>' in c: return SplitIter(args[0], args[1])
     if c.endswith("Split<'_, char> as Iterator>::next"):
         return opt(split_next(args[0].get(), ctx))
@@ -820,9 +848,15 @@ def call(fr, callee, args, ctx):
         mu = _d(_d(args[0]).f[0].f[0])
         arr = mu.f[1].f[0].f[0]
         return VecV(list(arr.f))
-    mr_ = re.fullmatch(r'(?:std::result::)?Result::<.*>::(unwrap|expect|ok|is_ok|is_err|unwrap_or)(?:::<.*>)?', c)
+    mr_ = re.fullmatch(r'(?:std::result::)?Result::<.*>::(unwrap|expect|ok|is_ok|is_err|unwrap_or|map|map_err|and_then)(?:::<.*>)?', c)
     if mr_ and isinstance(_d(args[0]), Enum) and _d(args[0]).variant in ('Ok', 'Err'):
         r_ = _d(args[0]); k_ = mr_.group(1)
+        def callr(clo, *a):
+            if isinstance(clo, tuple) and clo and clo[0] == 'fnitem': return call(fr, clo[1], list(a), ctx)
+            return run_fn(closure_name(clo), [clo] + list(a), ctx)
+        if k_ == 'map': return Enum('Ok', [callr(args[1], r_.f[0])]) if r_.variant == 'Ok' else r_
+        if k_ == 'map_err': return Enum('Err', [callr(args[1], r_.f[0])]) if r_.variant == 'Err' else r_
+        if k_ == 'and_then': return callr(args[1], r_.f[0]) if r_.variant == 'Ok' else r_
         if k_ in ('unwrap', 'expect'):
             if r_.variant != 'Ok': raise NotEncodable('reachable panic: unwrap on Err')
             return r_.f[0]
@@ -1154,12 +1188,7 @@ def run_fn_(name, args, ctx, depth=0):
                 v = eval_operand(fr, m.group(1), ctx)
                 targets = [t.split(': ') for t in split_top(m.group(2))]
                 if isinstance(v, tuple) and v[0] == 'disc':   # enum discriminant
-                    e = v[1]
-                    if hasattr(e, 'idx'): val = e.idx
-                    elif e.variant in DISC: val = DISC[e.variant]
-                    else:
-                        some = option_is_some(e, ctx)
-                        val = 1 if some else 0
+                    val = disc_value(v[1], ctx)
                 elif isinstance(v, bool): val = int(v)
                 elif is_expr(v) and is_bool(v): val = int(ctx.branch(v))
                 else: val = v
